@@ -1681,6 +1681,26 @@ class Lib(object):
             args = vs[:len(plain)]
             starval = vs[len(plain)] if star else ()
             kw = vs[-1]
+            if isinstance(f, Obj) and isinstance(f.cls, type):
+                raw = self.repo_dunder(engine, f, "__call__")
+                if raw is not None:
+                    f = BoundMethod(f, raw, "__call__")
+            target = f.func if isinstance(f, BoundMethod) else f
+            if engine.is_repo_function(target) and isinstance(kw, Obj) and kw.kind == "dict":
+                # forwarding f(*args, **kwargs) to a repository function that itself takes (*args, **kwargs): the argument list
+                # and the keyword dict are handed over as they are
+                import inspect as _insp
+                sig = _insp.signature(target)
+                var = [p for p in sig.parameters.values() if p.kind == p.VAR_POSITIONAL]
+                vkw = [p for p in sig.parameters.values() if p.kind == p.VAR_KEYWORD]
+                pos = [p for p in sig.parameters.values() if p.kind in (p.POSITIONAL_ONLY, p.POSITIONAL_OR_KEYWORD)]
+                allargs = ([f.recv] if isinstance(f, BoundMethod) else []) + list(args)
+                if var and vkw and len(allargs) == len(pos) and isinstance(starval, (VarArgs, SVL, tuple)):
+                    rest = starval.vl if isinstance(starval, VarArgs) else (starval if isinstance(starval, SVL) else SVL(to_vl(starval)))
+                    for r in engine.call_repo(st1, target, allargs + [VarArgs(rest)], {vkw[0].name: kw}, node):
+                        yield r
+                    continue
+                raise Unsupported("** call of a repository function (line %d)" % node.lineno)
             if not isinstance(f, SVal):
                 raise Unsupported("** call of a non-dynamic callable")
             for st2, vl in self.star_items(engine, st1, starval, node):
